@@ -209,7 +209,31 @@ def rule_r3(repo, run, T, types):
         run.check(R, "typemap[%s].PY_build_format" % name, want == got,
                   "PY_build_format %r takes %d arguments but PY_build_arg %r supplies %d" % (bf, want, ba, got),
                   types.loc(name), sample=dict(type=name, build_format=str(bf), build_arg=str(ba)))
-    run.floor(R, "parse/build format instances", n, 18)
+    # '#' units: the length argument is Py_ssize_t only when PY_SSIZE_T_CLEAN is defined before Python.h is included;
+    # CPython 3.10-3.12 refuse a '#' unit without it (SystemError), older versions read an int
+    hashed = [("typemap[%s].%s" % (name, k), str(ty.get(k))) for name, ty in sorted(types.types.items())
+              for k in ("PY_format", "PY_build_format") if ty.get(k) and "#" in str(ty.get(k))]
+    for lang in ("c", "c++"):
+        for name, e in t.resolve_all(lang).items():
+            if e.get("parse_format") and "#" in str(e.get("parse_format")):
+                hashed.append(("wrapp.py_statements[%s].parse_format" % name, str(e.get("parse_format"))))
+    wp = repo.module("wrapp")
+    incs = [c for c in ast.walk(wp.tree) if isinstance(c, ast.Constant) and isinstance(c.value, str)
+            and re.search(r"#include\s*<Python\.h>", c.value)]
+    if not incs:
+        raise AnalysisError("C03.R3: emission of `#include <Python.h>` not found in wrapp")
+    for inc in incs:
+        fn = enclosing_function(inc)
+        before = [c for c in ast.walk(fn) if isinstance(c, ast.Constant) and isinstance(c.value, str)
+                  and re.search(r"#define\s+PY_SSIZE_T_CLEAN\b", c.value) and (c.lineno, c.col_offset) <= (inc.lineno, inc.col_offset)]
+        same = re.search(r"#define\s+PY_SSIZE_T_CLEAN\b.*#include\s*<Python\.h>", inc.value, re.S)
+        n += 1
+        run.check(R, "wrapp.%s:PY_SSIZE_T_CLEAN" % getattr(fn, "_qualname", "?"), bool(before or same) or not hashed,
+                  "format units with '#' are used (%s) but PY_SSIZE_T_CLEAN is not defined before <Python.h>: "
+                  "Py_BuildValue raises SystemError (\"PY_SSIZE_T_CLEAN macro must be defined for '#' formats\") on "
+                  "CPython 3.10-3.12 and reads the length as int before" % ", ".join("%s=%r" % h for h in hashed[:3]),
+                  wp.loc(inc), sample=dict(units=hashed[:5]))
+    run.floor(R, "parse/build format instances", n, 19)
 
 
 ERR_CALLS = ("PyErr_SetString", "PyErr_Format", "PyErr_NoMemory", "PyErr_SetObject")
@@ -335,6 +359,16 @@ def rule_r6(repo, run):
     run.check(R, "wrapp.Wrapp.wrap_function:npyargs", len(inc) == 1 and
               isinstance(inc[0].value.right, ast.Constant) and inc[0].value.right.value == 1,
               "npyargs must be incremented by one per parsed argument", wp.loc(f))
+    # selection by count equals selection by the *set* of supplied arguments only if keywords cannot leave gaps:
+    # scale(3, factor=10) has count 2 and takes the arm `scale(x, a)` with `a` never assigned
+    strs = [n.value for n in ast.walk(f) if isinstance(n, ast.Constant) and isinstance(n.value, str)]
+    counts_keywords = any("SH_nargs" in t and "PyDict_Size(kwds)" in t for t in strs)
+    inspects_names = any(re.search(r"PyDict_GetItem(String)?\s*\(\s*kwds|PyDict_Contains\s*\(\s*kwds|PyMapping_HasKey(String)?\s*\(\s*kwds", t)
+                         for t in strs)
+    run.check(R, "wrapp.Wrapp.wrap_function:switch:keyword-gap", not counts_keywords or inspects_names,
+              "the default-argument switch selects the call by the number of supplied arguments, keywords included, and "
+              "nothing checks which keywords were given: f(x, a=2, factor=1) called as f(3, factor=10) takes the arm "
+              "f(x, a) with `a` unassigned and drops factor - a silently wrong call", wp.loc(f))
     # dispatcher arity uses the same notion: known mismatch (len(ast.params) counts out/hidden arguments)
     md = wp.func("Wrapp.multi_dispatch")
     uses_params = "len(overload.ast.params)" in wp.seg(md)
@@ -591,6 +625,119 @@ def rule_r12(repo, run, T):
     run.floor(R, "vector-building helpers", nh, 1)
 
 
+def rule_r13(repo, run, T):
+    R = run.rule("C03.R13", "class instances as arguments (shadow classes, structs wrapped as classes): every pointer form x "
+                            "intent has statements of its own, the object handed back is the Python object, and a borrowed "
+                            "object returned by itself gets a reference")
+    py = T["py"]
+    res = py.resolve_all("c++")
+    n = 0
+    for group, tail in (("shadow", []), ("struct", ["class"])):
+        for sp in ("*", "&"):
+            for intent in ("in", "inout"):
+                n += 1
+                path = ["py", group, sp, intent] + tail
+                got = py.lookup(path, "c++")
+                run.check(R, "wrapp.py_statements[%s]:lookup" % "_".join(path), got is not None,
+                          "no statements are found for %s: the lookup silently falls back to py_default, which declares "
+                          "nothing and passes text that does not compile (a non-const `T &` argument is intent(inout) by "
+                          "default)" % "_".join(path), "shroud/wrapp.py", sample=dict(path=path))
+    run.floor(R, "class-argument lookups", n, 8)
+    k = 0
+    borrowed = []
+    for name, e in sorted(res.items()):
+        parts = name.split("_")
+        if not ({"inout", "out"} & set(parts)):
+            continue
+        if e.get("arg_declare") != [] or not any("{py_var}->" in l for l in e.lines("post_declare")):
+            continue
+        # the C++ pointer is taken out of the Python object that was parsed: that object is what goes back
+        k += 1
+        borrowed.append((name, e))
+        run.check(R, "wrapp.py_statements[%s]:object_created" % name, e.get("object_created") is True,
+                  "the C++ pointer is extracted from the parsed Python object, but object_created is not set: Py_BuildValue "
+                  "is then given the C++ pointer for an \"O\" unit (crash)", py.loc(e.raw), sample=dict(entry=name))
+    run.floor(R, "entries that hand the parsed object back", k, 3)
+    wp = repo.module("wrapp")
+    wf = wp.func("Wrapp.wrap_function")
+    incs = [c for c in ast.walk(wf) if isinstance(c, ast.Constant) and isinstance(c.value, str) and "Py_INCREF({py_var})" in c.value]
+    in_emitter = any(any("inout" in str(wp.seg(t)) or "intent" in str(wp.seg(t)) for t, pol in pyflow.dominating_tests(c, stop=wf))
+                     for c in incs)
+    for name, e in borrowed:
+        if "inout" not in name.split("_"):
+            continue
+        in_entry = any("Py_INCREF({py_var})" in l for l in e.lines("post_call"))
+        run.check(R, "wrapp.py_statements[%s]:borrowed-return" % name, in_emitter or in_entry,
+                  "the object parsed with \"O!\" is a borrowed reference; when it is the only value returned "
+                  "(`return (PyObject *) {py_var};`) nobody takes a reference: the caller's object is released once too "
+                  "often", py.loc(e.raw), sample=dict(entry=name))
+
+
+def _error_returns(text):
+    """constants returned right after an exception is set (same block: no `}` in between)"""
+    out = []
+    lines = text.split("\n")
+    for i, l in enumerate(lines):
+        if re.search(r"\bPyErr_(Format|SetString|SetObject|NoMemory)\b", l):
+            for j in range(i + 1, min(i + 6, len(lines))):
+                if lines[j].lstrip("+-").startswith("}") or lines[j].startswith("-}"):
+                    break
+                m = re.match(r"\s*[-+]*return\s+(-?\d+)\s*;", lines[j])
+                if m:
+                    out.append(int(m.group(1)))
+                    break
+    return out
+
+
+def rule_r14(repo, run, T):
+    R = run.rule("C03.R14", "a conversion helper reports failure with the value its call sites test for")
+    from checks.c05 import match_helper
+    py = T["py"]
+    helpers = T["helpers"].c
+    n = 0
+    seen = set()
+    CLAUSES = ("post_parse", "pre_call", "post_declare", "post_call", "setter", "getter", "declare")
+    for name, e in sorted(py.resolve_all("c++").items()):
+        for clause in CLAUSES:
+            fld = clause + "_helper" if clause in ("getter", "setter") else "c_helper"
+            req = str(e.get(fld) or "").split()
+            text = " ".join(l.replace("\t", " ") for l in e.lines(clause))
+            for m in re.finditer(r"if\s*\(\s*(!?)\s*\{hnamefunc(\d+)\}\s*\(([^;]*?)\)\s*(?:(==|!=|<)\s*(-?\d+)\s*)?\)", text):
+                idx = int(m.group(2))
+                if idx >= len(req):
+                    continue
+                neg, op, kval = m.group(1), m.group(4), m.group(5)
+                if op is None:
+                    fails = (lambda v: v == 0) if neg else (lambda v: v != 0)
+                    shown = "!f(...)" if neg else "f(...)"
+                elif op == "==":
+                    fails = lambda v, k=int(kval): v == k
+                    shown = "f(...) == %s" % kval
+                elif op == "<":
+                    fails = lambda v, k=int(kval): v < k
+                    shown = "f(...) < %s" % kval
+                else:
+                    continue
+                for key in match_helper(req[idx], helpers):
+                    for hk in [key] + [d for dep in helpers[key].get("dependent_helpers", []) or [] if "source" not in helpers[key]
+                                       and "c_source" not in helpers[key] for d in match_helper(str(dep), helpers)]:
+                        if (hk, shown) in seen:
+                            continue
+                        seen.add((hk, shown))
+                        for kk, src in tables.helper_sources(helpers[hk]):
+                            errs = _error_returns(src)
+                            if not errs:
+                                continue
+                            n += 1
+                            bad = sorted(set(v for v in errs if not fails(v)))
+                            run.check(R, "whelpers.CHelpers[%s].%s:error-return" % (hk, kk), not bad,
+                                      "the helper sets an exception and returns %s, but py_statements[%s] treats only `%s` as "
+                                      "failure: the wrapper goes on with an exception pending (SystemError, or use of an "
+                                      "unset converter value)" % (bad, name, shown), "shroud/whelpers.py",
+                                      sample=dict(helper=hk, caller=name, test=shown, error_returns=errs))
+    run.floor(R, "helpers whose failure value is tested by a statement entry", n, 6)
+
+
 def run(repo, run, tier):
     tables.check_model_assumptions(repo)
     T = dict(py=tables.StatementTable(repo, "wrapp", "py_statements"),
@@ -608,4 +755,6 @@ def run(repo, run, tier):
     rule_r10(repo, run, T)
     rule_r11(repo, run, T)
     rule_r12(repo, run, T)
+    rule_r13(repo, run, T)
+    rule_r14(repo, run, T)
     run.assumptions.append("LP64 sizes; CPython PyArg_Parse / Py_BuildValue unit table in the checker")
